@@ -24,7 +24,10 @@ from .expr import Builder, N, norm_bin, norm_call, body_info
 from .mir import callee_name
 
 INT_W = {"u8": 8, "u16": 16, "u32": 32, "u64": 64, "u128": 128, "usize": 64,
-         "i8": 8, "i16": 16, "i32": 32, "i64": 64, "i128": 128, "isize": 64}
+         "i8": 8, "i16": 16, "i32": 32, "i64": 64, "i128": 128, "isize": 64,
+         # transparent newtypes (N() drops the wrapper, constants keep the wrapper's name)
+         "owlchess_base::bitboard::Bitboard": 64, "owlchess_base::types::Coord": 8, "owlchess_base::types::Cell": 8,
+         "owlchess_base::types::CastlingRights": 8}
 
 # external callees that take a `&mut` argument only to hand out a pointer into it (no write happens)
 NO_WRITE_EXT = (
@@ -241,6 +244,41 @@ class FxBuilder(Builder):
             if ty == "bool":
                 res = 1 if res else 0
             return ("const", res, ty)
+        if k in ("tbl", "index") and e[2][0] == "const" and e[1][0] == "agg" and e[1][1] == "array":
+            if 0 <= e[2][1] < len(e[1][3]):
+                return self.fold(e[1][3][e[2][1]])
+            return None
+        if k in ("tbl", "index") and e[2][0] == "const" and e[1][0] in ("alloc", "deref") :
+            a = e[1] if e[1][0] == "alloc" else (e[1][1][1] if e[1][1][0] == "ref" and e[1][1][1][0] == "alloc" else None)
+            if a is not None and a[0] == "alloc":
+                al = self.facts.allocs.get(str(a[1]))
+                if al is not None:
+                    raw = bytes.fromhex(al["bytes"])
+                    i = (a[2] or 0) + e[2][1]
+                    if 0 <= i < len(raw) and not al["relocs"]:
+                        return ("const", raw[i], "u8")
+            return None
+        if k == "call" and len(e[2]) == 1:
+            nm = e[1]
+            a = e[2][0]
+            c = self.fold(a[1] if a[0] == "ref" else a)
+            if c is not None:
+                if nm.startswith("core::char::convert::<impl core::convert::From<char> for u") or \
+                        (nm.startswith("core::convert::num::<impl core::convert::From<u") and nm.endswith(">::from")):
+                    return ("const", c[1], nm.split(" for ")[1].split(">")[0])
+                last = nm.split("::")[-1]
+                if nm.startswith("core::char::methods::<impl char>::"):
+                    ch = c[1]
+                    if last == "is_ascii_uppercase":
+                        return ("const", 1 if 65 <= ch <= 90 else 0, "bool")
+                    if last == "is_ascii_lowercase":
+                        return ("const", 1 if 97 <= ch <= 122 else 0, "bool")
+                    if last == "to_ascii_lowercase":
+                        return ("const", ch + 32 if 65 <= ch <= 90 else ch, "char")
+                    if last == "to_ascii_uppercase":
+                        return ("const", ch - 32 if 97 <= ch <= 122 else ch, "char")
+                    if last == "is_ascii":
+                        return ("const", 1 if ch < 128 else 0, "bool")
         if k in ("tbl", "index") and e[1][0] == "named" and e[2][0] == "const":
             c = self.facts.consts.get(e[1][1])
             if c is not None:
@@ -789,10 +827,11 @@ class FxBuilder(Builder):
             opn = {"bitxor_assign": "BitXor", "bitor_assign": "BitOr", "bitand_assign": "BitAnd",
                    "add_assign": "Add", "sub_assign": "Sub"}.get(name.split("::")[-1])
             tgt = args[0]
-            if opn in ("BitXor", "BitOr", "BitAnd") and tgt[0] == "ref":
-                cur = self.load(tgt[1])
+            if opn in ("BitXor", "BitOr", "BitAnd"):
+                place = tgt[1] if tgt[0] == "ref" else ("deref", tgt)
+                cur = self.load(place)
                 newv = self.simp(norm_bin(opn, cur, args[1]))
-                self.store(tgt[1], newv, site, nodes)
+                self.store(place, newv, site, nodes)
                 veq = ("zst", "()")
         if veq is None and base and "IntoIterator for [" in base and base.endswith("into_iter") and args \
                 and args[0][0] == "agg" and args[0][1] == "array":
